@@ -47,7 +47,7 @@ type Scenario struct {
 	ExtraQuery []idp.Param  `json:"extra_query,omitempty"`
 	ExtraBody  []idp.Param  `json:"extra_body,omitempty"`
 	// what the simulated SP really signed (for the C05 oracle)
-	SignedTriples [][3]string `json:"-"`
+	SignedTriples [][4]string `json:"-"` // message, RelayState, SigAlg, signature
 	SignedDocOK   bool        `json:"-"` // the document sent is exactly what the SP signed (enveloped)
 }
 
@@ -88,7 +88,7 @@ func keyFor(name string) *idp.KeyPair {
 func (s *Scenario) Build() (*Built, error) {
 	doc := s.Req.XML(s.Style)
 	signedDoc := false
-	if s.Sign != "" && s.Transport == "post" || s.Mut == "move-to-redirect" {
+	if s.Sign != "" && s.Transport == "post" || strings.HasPrefix(s.Mut, "move-to-redirect") {
 		alg := s.Sign
 		if alg == "" {
 			alg = idp.RSASHA256
@@ -102,7 +102,7 @@ func (s *Scenario) Build() (*Built, error) {
 	}
 	// mutations of the document after signing
 	switch s.Mut {
-	case "bitflip-msg":
+	case "bitflip-msg", "move-to-redirect-tampered":
 		doc = []byte(strings.Replace(string(doc), `ID="`, `ID="x`, 1))
 		signedDoc = false
 	case "bitflip-sigvalue":
@@ -136,7 +136,7 @@ func (s *Scenario) Build() (*Built, error) {
 	}
 	s.SignedDocOK = signedDoc
 	var msg string
-	deflate := s.Transport == "redirect" && !s.NoDeflate || s.Mut == "move-to-redirect"
+	deflate := s.Transport == "redirect" && !s.NoDeflate || strings.HasPrefix(s.Mut, "move-to-redirect")
 	if s.Mut == "post-deflated" {
 		deflate = true
 	}
@@ -156,7 +156,10 @@ func (s *Scenario) Build() (*Built, error) {
 	if s.Encoding != nil {
 		params = append(params, idp.Q("SAMLEncoding", *s.Encoding))
 	}
-	detached := s.Sign != "" && (s.Transport == "redirect" && s.Mut != "move-to-redirect" || s.Mut == "move-to-post")
+	detached := s.Sign != "" && (s.Transport == "redirect" && !strings.HasPrefix(s.Mut, "move-to-redirect") || s.Mut == "move-to-post") || strings.HasPrefix(s.Mut, "post-detached-sig")
+	if strings.HasPrefix(s.Mut, "post-detached-sig") && s.Sign == "" {
+		s.Sign = idp.RSASHA256
+	}
 	if detached {
 		signRelay := s.Relay
 		if s.Mut == "swap-relay" {
@@ -165,7 +168,7 @@ func (s *Scenario) Build() (*Built, error) {
 		octets := idp.RedirectOctets("SAMLRequest", msg, signRelay, s.Sign, url.QueryEscape)
 		sig := idp.SignRedirect(keyFor(s.SignKey).Key, s.Sign, octets)
 		if s.SignKey != "other" {
-			s.SignedTriples = append(s.SignedTriples, [3]string{msg, signRelay, s.Sign})
+			s.SignedTriples = append(s.SignedTriples, [4]string{msg, signRelay, s.Sign, sig})
 		}
 		sendAlg := s.Sign
 		switch s.Mut {
@@ -175,7 +178,7 @@ func (s *Scenario) Build() (*Built, error) {
 			} else {
 				sendAlg = idp.RSASHA1
 			}
-		case "bitflip-sig":
+		case "bitflip-sig", "post-detached-sig-bad":
 			raw, _ := base64.StdEncoding.DecodeString(sig)
 			raw[len(raw)/2] ^= 0x10
 			sig = base64.StdEncoding.EncodeToString(raw)
@@ -197,7 +200,7 @@ func (s *Scenario) Build() (*Built, error) {
 	}
 	method := http.MethodGet
 	switch {
-	case s.Transport == "post" && s.Mut != "move-to-redirect" || s.Mut == "move-to-post":
+	case s.Transport == "post" && !strings.HasPrefix(s.Mut, "move-to-redirect") || s.Mut == "move-to-post":
 		method = http.MethodPost
 		body = params
 	default:
